@@ -310,9 +310,15 @@ func reflectorDyn(c *core.Ctx, nt *types.Named) {
 						c.Fail("reflector-dyn", name, fn.Pos(), "the argument is asserted to %s, expected *S", ta.Aux)
 					}
 					if s.Pol {
+						if p.Exit == ir.ExitPanic && len(nonLocalStores(p)) == 0 && len(unsafeDerefs(p)) == 0 {
+							// a further refusal after the assertion (a nil *S): panics without touching memory
+							nPanic++
+							continue
+						}
 						nOK++
 						if p.Exit != ir.ExitReturn {
 							ok = false
+							c.Fail("reflector-dyn", name, lastPos(p), "after a successful assertion the method neither returns nor panics cleanly")
 						}
 					} else {
 						nPanic++
